@@ -251,6 +251,10 @@ func structure(s *schema.Schema) []string {
 	return out
 }
 
+// defaultOpClass: (method/operator class) pairs of the universe that are the method's default for the
+// column type they are used with (PostgreSQL catalogue, pg_opclass.opcdefault).
+var defaultOpClass = map[string]bool{"BTREE/int4_ops": true, "HASH/int4_ops": true, "BRIN/int4_minmax_ops": true, "BTREE/text_ops": true}
+
 func parts(i *schema.Index) string {
 	ps := append([]*schema.IndexPart(nil), i.Parts...)
 	sort.Slice(ps, func(a, b int) bool { return ps[a].SeqNo < ps[b].SeqNo })
@@ -265,7 +269,25 @@ func parts(i *schema.Index) string {
 		if p.Desc {
 			s += " desc"
 		}
-		if a := attrNames(p.Attrs); len(a) > 0 {
+		var rest []schema.Attr
+		for _, a := range p.Attrs {
+			oc, ok := a.(*postgres.IndexOpClass)
+			if !ok {
+				rest = append(rest, a)
+				continue
+			}
+			// the access method's default operator class spelled out is the same index as none at all.
+			method := "BTREE"
+			for _, ia := range i.Attrs {
+				if it, ok := ia.(*postgres.IndexType); ok {
+					method = strings.ToUpper(it.T)
+				}
+			}
+			if !defaultOpClass[method+"/"+oc.Name] {
+				s += " ops:" + oc.Name
+			}
+		}
+		if a := attrNames(rest); len(a) > 0 {
 			s += fmt.Sprint(a)
 		}
 		out = append(out, s)
